@@ -193,7 +193,12 @@ static size_t sym_size(uint64_t sym, uint64_t raw, size_t size, size_t cap, int 
     size_t per = es ? SIZE_MAX / es : SIZE_MAX;
     size_t bn = (size_t)(budget / es);          /* about as many elements as the heap budget holds */
     *huge = 0;
-    switch (sym % 20) {
+    switch (sym % 24) {
+    /* widths at which a byte count stops fitting an int / unsigned: a narrowing conversion on the way to realloc shows here */
+    case 20: *huge = 1; return (size_t)(((uint64_t)1 << 32) / es) + (size_t)(raw % 3);
+    case 21: *huge = 1; return (size_t)(((uint64_t)1 << 31) / es) + (size_t)(raw % 3);
+    case 22: *huge = 1; return (size_t)(((uint64_t)1 << 32) / es) * (2 + (size_t)(raw % 3)) + 1;
+    case 23: *huge = 1; return (size_t)(((uint64_t)1 << 33) / es) + (size_t)(raw % 2);
     case 0: return 0;
     case 1: return 1;
     case 2: return size + 1 < MAXN - 8 ? size + 1 : size;
@@ -485,7 +490,7 @@ static void v_gen(prng_t *r, int mode, plan_t *p)
         o->a[0] = prng_below(r, 2);
         o->a[2] = prng_next(r) >> 8;
         if (kind == V_RESIZE) o->a[1] = prng_below(r, 12);                               /* never a huge size mid-plan: it would abort */
-        else if (kind == V_RESERVE) o->a[1] = boundary && prng_chance(r, 1, 3) ? 12 + prng_below(r, 8) : prng_below(r, 12);
+        else if (kind == V_RESERVE) o->a[1] = boundary && prng_chance(r, 1, 3) ? 12 + prng_below(r, 12) : prng_below(r, 12);
         else if (kind == V_AT) o->a[1] = prng_chance(r, 1, 2) ? 5 : prng_below(r, 2);   /* in range */
         else o->a[1] = prng_below(r, 1000);
         if (faults && (kind == V_RESERVE || kind == V_SHRINK) && prng_chance(r, 1, 3)) o->a[3] = 1;
@@ -495,7 +500,7 @@ static void v_gen(prng_t *r, int mode, plan_t *p)
         unsigned x = (unsigned)prng_below(r, 10);
         op_t *o;
         if (x < 3) { o = plan_add(p, V_AT); o->a[1] = 2 + prng_below(r, 3); }
-        else if (x < 7) { o = plan_add(p, V_RESIZE); o->a[1] = 13 + prng_below(r, 7); }
+        else if (x < 7) { o = plan_add(p, V_RESIZE); o->a[1] = 13 + prng_below(r, 11); }
         else { o = plan_add(p, V_RESIZE); o->a[1] = 2 + prng_below(r, 10); o->a[3] = 1; }
         o->a[0] = prng_below(r, 2); o->a[2] = prng_next(r) >> 8;
     }
